@@ -18,7 +18,7 @@ SPEC = os.path.join(VERIF, "spec")
 WORK = os.environ.get("VERIF_WORK", os.path.join(VERIF, ".work"))       # overridden only by the mutant self-tests
 EVID = os.environ.get("VERIF_EVIDENCE_DIR", os.path.join(VERIF, "evidence"))
 TLA_CP = "/opt/veriftools/tla/tla2tools.jar:/opt/veriftools/tla/CommunityModules-deps.jar"
-NCPU = os.cpu_count() or 4
+NCPU = int(os.environ.get("VERIF_NPROC") or 0) or os.cpu_count() or 4        # VERIF_NPROC: run a check on fewer cores (e.g. next to another run)
 
 
 class MachineryError(Exception):
